@@ -346,9 +346,11 @@ def pruneLoop (g : Graph) : List Nat → PruneSt → PruneSt
         pruneLoop g is
           { st with resolved := st.resolved ++ opOutputs op
                     pruned := st.pruned ++ [i]
-                    cand := st.cand ++ opOutputs op }
+                    cand := addTemps st.cand (opOutputs op) }
 
-/-- `Planner::prune_plan`: `(pruned_plan, new_outputs)`. -/
+/-- `Planner::prune_plan`: `(pruned_plan, new_outputs)`.  `candidate_outputs` lists an id once
+(`candidate_ids.insert`, commit 7d33f36; before it a value both supplied and produced by a kept
+operator was listed twice and `partial_run` panicked with "missing output value"). -/
 def prunePlan (g : Graph) (plan ins outs : List Nat) : List Nat × List Nat :=
   let st := pruneLoop g plan { resolved := ins, pruned := [], cand := ins, prunedResolved := [] }
   (st.pruned, st.cand.filter (fun o => outs.contains o || st.prunedResolved.contains o))
@@ -380,5 +382,74 @@ def Req.ids (r : Req) : List Nat := r.inputs.map (·.1)
 def cacheAfter (v : Ver) (m : Mdl) (opsOk : Bool) : List Req → Option CachedPlan → Option CachedPlan
   | [], c => c
   | r :: rs, c => cacheAfter v m opsOk rs (run v m opsOk c r.inputs r.outs).2
+
+
+/-! ## Concurrent calls on one model (C22)
+
+A call is a little program of atomic steps:
+* `run`: `validate_inputs` (no shared state) and then the critical section
+  `[lock; matches-or-replan; unlock]` — one step, because everything between `lock()` and the
+  end of `get_cached_plan` happens under the mutex and nothing in it waits for another thread
+  (`create_plan` touches no lock and terminates, C03.T1); then `run_plan` with the call's *own*
+  `Arc<CachedPlan>`, `BufferPool`, refcounts and value map — a second step that reads no shared
+  mutable state;
+* `partial_run`: plans and runs without touching the cache — one step.
+A schedule is any list of thread indices; each occurrence lets that thread take its next step. -/
+
+/-- One concurrent call with its own arguments (`opsOk`: what the kernels do on *its* values). -/
+structure Call where
+  isPartial : Bool := false
+  req : Req
+  opsOk : Bool := true
+deriving Repr, DecidableEq, Inhabited
+
+/-- Where a thread is. -/
+inductive Pc where
+  | start
+  /-- left the critical section holding `Arc<plan>` -/
+  | planned (plan : List Nat)
+  | done (o : Outcome)
+deriving Repr, DecidableEq, Inhabited
+
+/-- Shared state (the plan cache) + one program counter per call. -/
+structure Sys where
+  cache : Option CachedPlan
+  pcs : List Pc
+deriving Repr, DecidableEq, Inhabited
+
+/-- One atomic step of call `k` at `pc` with the shared cache `c`: new pc and new cache. -/
+def stepCall (v : Ver) (m : Mdl) (k : Call) (pc : Pc) (c : Option CachedPlan) : Pc × Option CachedPlan :=
+  match pc with
+  | .done o => (.done o, c)
+  | .planned plan => (.done (runPlan m.g k.opsOk k.req.inputs plan k.req.outs), c)
+  | .start =>
+    if k.isPartial then (.done (partialRun m k.opsOk k.req.inputs k.req.outs), c)
+    else if !validateInputs m k.req.inputs then (.done .errInvalidInput, c)
+    else
+      match getCachedPlan v m.g false c k.req.ids k.req.outs with
+      | (.error e, c') => (.done (.errPlan e), c')
+      | (.ok plan, c') => (.planned plan, c')
+
+/-- Thread `i` takes a step (indices without a call are ignored). -/
+def stepSys (v : Ver) (m : Mdl) (calls : List Call) (s : Sys) (i : Nat) : Sys :=
+  match calls[i]?, s.pcs[i]? with
+  | some k, some pc =>
+    let r := stepCall v m k pc s.cache
+    { cache := r.2, pcs := s.pcs.set i r.1 }
+  | _, _ => s
+
+/-- Run a schedule. -/
+def execSched (v : Ver) (m : Mdl) (calls : List Call) : List Nat → Sys → Sys
+  | [], s => s
+  | i :: is, s => execSched v m calls is (stepSys v m calls s i)
+
+/-- All threads at `start`. -/
+def initSys (c : Option CachedPlan) (calls : List Call) : Sys :=
+  { cache := c, pcs := calls.map (fun _ => .start) }
+
+/-- The call made alone (its two steps back to back) from cache content `c`. -/
+def runAlone (v : Ver) (m : Mdl) (k : Call) (c : Option CachedPlan) : Outcome :=
+  if k.isPartial then partialRun m k.opsOk k.req.inputs k.req.outs
+  else (run v m k.opsOk c k.req.inputs k.req.outs).1
 
 end RtenVerif.PlanCache
